@@ -10,14 +10,29 @@ Theorem schema_requires_spec_thm : forall h o nl : bool,
   schema_requires (KBool h) (KBool o) (KBool nl) = Ok (KBool (negb h && negb (o && nl))).
 Proof. intros [|] [|] [|]; reflexivity. Qed.
 
-(* what K20 sees of a model type (the wrappers Annotated / Final are not part of `ty`) *)
+(* what K20 sees of a field whose type is written without a bare type variable (the wrappers Annotated / Final are
+   not part of `ty`; type variables nested in the written type are already substituted in the model type, and every
+   test gives the same answer on the written and on the substituted form) *)
+Definition t_any_none (t: ty) : bool := match t with TAny | TNone => true | _ => false end.
+Definition t_union_none (t: ty) : bool := match t with TUnion ts => existsb is_tnone ts | _ => false end.
 Definition core_of_ty (t: ty) : fcore :=
-  mkCore (match t with TAny | TNone => true | _ => false end)
+  mkCore (t_any_none t)
          false
          (match t with
           | TUnion [a; b] => is_tnone a || is_tnone b     (* helpers.is_optional: exactly two members, one is None *)
           | _ => false end)
-         (match t with TUnion ts => existsb is_tnone ts | _ => false end).   (* a union with a None member *)
+         (t_union_none t)           (* a union with a None member, as written ... *)
+         (t_any_none t)
+         (t_union_none t).          (* ... and after substitution *)
+
+(* ... and of a field declared as a bare type variable (`x: T` in a generic dataclass): the written type is the
+   variable (none of the tests on `ftype` holds); in the specialisation G[t] the variable stands for t, in the
+   unspecialised class it is unbound (is_type_var_any) *)
+Definition core_of_tv (bound: option ty) : fcore :=
+  match bound with
+  | Some t => mkCore false false false false (t_any_none t) (t_union_none t)
+  | None => mkCore false true false false false false
+  end.
 
 Lemma nullable_core t : core_nullable (core_of_ty t) = nullable t.
 Proof.
@@ -25,10 +40,24 @@ Proof.
   unfold core_nullable, core_of_ty, nullable. cbn. destruct (is_tnone a), (is_tnone b); reflexivity.
 Qed.
 
+Lemma nullable_core_tv t : core_nullable (core_of_tv (Some t)) = nullable t.
+Proof. destruct t; reflexivity. Qed.
+
 (* K20 on the field as written in the class (any stack of Annotated/Final wrappers) = the model's fnullable *)
 Theorem fnullable_is_K20_thm : forall (f: field) (ws: list bool),
   is_field_nullable (wrap ws (FCore (core_of_ty (f_ty f)))) (f_dnone f) = fnullable f.
 Proof. intros f ws. rewrite K20_wrapped_core_thm, nullable_core. reflexivity. Qed.
+
+(* the same for a field declared as a type variable that this specialisation binds to f_ty f (since /repo 4da7e9e;
+   before, the answer was `f_dnone f` whatever the variable was bound to) ... *)
+Theorem fnullable_typevar_is_K20_thm : forall (f: field) (ws: list bool),
+  is_field_nullable (wrap ws (FCore (core_of_tv (Some (f_ty f))))) (f_dnone f) = fnullable f.
+Proof. intros f ws. rewrite K20_wrapped_core_thm, nullable_core_tv. reflexivity. Qed.
+
+(* ... and an unbound one is nullable (it may hold anything; the model type of such a field is TAny) *)
+Theorem unbound_typevar_nullable_thm : forall (ws: list bool) d,
+  is_field_nullable (wrap ws (FCore (core_of_tv None))) d = true.
+Proof. intros ws d. rewrite K20_wrapped_core_thm. reflexivity. Qed.
 
 (* K6R o K20 = the model's frequired *)
 Theorem frequired_is_K6R_thm : forall (omit: bool) (f: field) (ws: list bool),
@@ -36,3 +65,9 @@ Theorem frequired_is_K6R_thm : forall (omit: bool) (f: field) (ws: list bool),
                   (KBool (is_field_nullable (wrap ws (FCore (core_of_ty (f_ty f)))) (f_dnone f)))
   = Ok (KBool (frequired omit f)).
 Proof. intros omit f ws. rewrite fnullable_is_K20_thm, schema_requires_spec_thm. reflexivity. Qed.
+
+Theorem frequired_typevar_is_K6R_thm : forall (omit: bool) (f: field) (ws: list bool),
+  schema_requires (KBool (f_has_default f)) (KBool omit)
+                  (KBool (is_field_nullable (wrap ws (FCore (core_of_tv (Some (f_ty f))))) (f_dnone f)))
+  = Ok (KBool (frequired omit f)).
+Proof. intros omit f ws. rewrite fnullable_typevar_is_K20_thm, schema_requires_spec_thm. reflexivity. Qed.
